@@ -29,15 +29,15 @@
        the declaration faults (C03_statement_declaration, C03_full_statement_declaration); one example per rule.
      - exactly one SYNTAX fault - one required closing token is missing: the `;` of an assignment, a call statement, a
        variable or a type declaration, the `)` of a call statement or of the condition of an if / while, the `}` of a
-       procedure body (Proofs/SynFaults.v `fprog`, one constructor per kind of fault) => the parser returns the mandated
-       tree of the original program with exactly ONE error, the message of the missing token with the EMPTY range at the
-       token in front of the gap (C03_missing_token, C03_missing_semicolon, C03_missing_paren, C03_missing_brace); if the
-       original program is well-typed, build and analyze add nothing (C03_missing_token_analysis); from texts on: exactly
-       one diagnostic, the empty byte range at the END of the token in front of the gap (C03_missing_token_text,
-       C03_missing_semicolon_text, ..., C03_syntax_statement_holds); one example per kind of fault.
-   NOT proved: syntax faults inside expressions and type expressions (`)` of a parenthesis, `]` of an index / array size),
-   the `)` of a parameter list, missing opening tokens and `:` / `=` / `of` (tools/splfaults.py validates the ones it
-   generates on generated programs). *)
+       procedure body, the `)` of a parenthesised expression or the `]` of an index anywhere in an assignment, in the condition
+       of an if / while or in an argument of a call (Proofs/SynFaults.v `fprog`, Proofs/SynFaultsE.v: one constructor per kind of fault) => the
+       parser returns the mandated tree of the original program with exactly ONE error, the message of the missing token
+       with the EMPTY range at the token in front of the gap (C03_missing_token, C03_missing_semicolon, C03_missing_paren,
+       C03_missing_bracket, C03_missing_brace); if the original program is well-typed, build and analyze add nothing
+       (C03_missing_token_analysis); from texts on: exactly one diagnostic, the empty byte range at the END of the token in
+       front of the gap (C03_missing_token_text, C03_missing_semicolon_text, ..., C03_syntax_statement_holds); examples.
+   NOT proved: the `]` of an array size, the `)` of a parameter list, missing opening tokens and `:` / `=` / `of`
+   (tools/splfaults.py validates the ones it generates on generated programs). *)
 From Spl Require Import Spec.Typing Model.Errors Proofs.TypingProofs.
 Local Open Scope nat_scope.
 
@@ -949,17 +949,21 @@ Proof. exists dfx6_table, (berr 7 8 (RedeclarationAsParameter s_a)). repeat spli
      FProcV              the `;` of a local variable declaration
      FProcC              the `}` of a procedure body (in front of `proc`, `type` or the end)
      FType               the `;` of a type declaration
+     FAsgL, FAsgR, FIfC, FIfEC, FWhlC, FCalA   a fault INSIDE an expression - the left- or right-hand side of an assignment, the
+                         condition of an if / while, an argument of a call - which is (Proofs/SynFaultsE.v, a zipper through the
+                         expression syntax) FaParC: the `)` of a parenthesised expression, or VIdxC: the `]` of an index, at any depth
    `orig_prog p` is the valid program it stems from (the token put back), `gk_prog p` the kind of the missing token and
    `msg_of_kind` its message (`;` -> MissingTrailingSemic, `)` / `}` -> MissingClosing), `fflatten p` the token kinds,
    `gap_prog p` the index of the token in front of the gap, `fexpected p` the tree SPL's parser is to build (the mandated
    tree of the original: the node whose closing token is missing carries the error, everything behind the gap is one token
-   further left), `fprog_ok p` = the original is a valid program and, behind a missing `;`, the next token is not `;`
-   (otherwise nothing is missing).  These are the faults tools/splfaults.py generates (`missing_token`) plus the `}`.
-   NOT covered: closing tokens inside expressions and type expressions (`)` of a parenthesis, `]` of an index or an
-   array size), `)` of a parameter list, opening tokens, `:` / `=` / `of`; evaluated, the model answers them with one
-   diagnostic at the end of the token in front of the gap as well, EXCEPT where the damaged text is also a damaged form of
-   another program (`x := (1 + 2 * 3;`: reported behind `3`; `x[i [1] := 1;`: `i[1]` is parsed as an index). *)
-From Spl Require Import Proofs.SynFaults Proofs.SynFaultsStmt Proofs.SynFaultsProg Proofs.SynFaultsText Proofs.SynFaultsSem.
+   further left), `fprog_ok p` = the original is a valid program and the token behind the gap (`gap_open`) is not the missing
+   token itself (otherwise nothing is missing: it takes its place) and - behind `;`, `)`, `]` - does not continue an
+   expression in front of the gap (otherwise the damaged text is also a damaged form of ANOTHER program: `x := (1 + 2 * 3;`
+   from `(1 + 2) * 3` and from `(1 + 2 * 3)`; the model reports behind `3`).  These are the faults tools/splfaults.py
+   generates (`missing_token`) plus the `}` and the faults inside expressions.
+   NOT covered: the `]` of an array size, the `)` of a parameter list, opening tokens, `:` / `=` / `of`; evaluated, the model
+   answers them with one diagnostic at the end of the token in front of the gap as well. *)
+From Spl Require Import Proofs.SynFaultsE Proofs.SynFaultsEP Proofs.SynFaults Proofs.SynFaultsArgs Proofs.SynFaultsStmt Proofs.SynFaultsProg Proofs.SynFaultsText Proofs.SynFaultsSem.
 
 (* the faulty token vector is the original one without the closing token behind token number gap_prog *)
 Theorem C03_missing_token_tokens : forall p,
@@ -1021,7 +1025,7 @@ Proof.
 Qed.
 Print Assumptions C03_missing_semicolon_text.
 
-(* B: a missing `)` (call statement, condition of if / while) *)
+(* B: a missing `)` (call statement, condition of if / while, parenthesised expression) *)
 Theorem C03_missing_paren : forall p toks,
   fprog_ok p = true -> gk_prog p = RParen -> map tk toks = fflatten p ++ [Eof] ->
   parse toks = Done (fexpected p) /\
@@ -1038,6 +1042,24 @@ Proof.
   rewrite Hg in H. exact H.
 Qed.
 Print Assumptions C03_missing_paren_text.
+
+(* ... a missing `]` (index) *)
+Theorem C03_missing_bracket : forall p toks,
+  fprog_ok p = true -> gk_prog p = RBracket -> map tk toks = fflatten p ++ [Eof] ->
+  parse toks = Done (fexpected p) /\
+  tree_errors (fexpected p) = [ {| e_s := gap_prog p; e_e := gap_prog p; e_m := EParse (MissingClosing 93) |} ].
+Proof. intros p toks Hok Hg Hk. pose proof (C03_missing_token p toks Hok Hk) as H. rewrite Hg in H. exact H. Qed.
+Print Assumptions C03_missing_bracket.
+
+Theorem C03_missing_bracket_text : forall p t G toks tok,
+  fprog_ok p = true -> gk_prog p = RBracket -> well_typed (expected (orig_prog p)) G ->
+  lex t = Some toks -> map tk toks = fflatten p ++ [Eof] -> nth_error toks (gap_prog p) = Some tok ->
+  diagnostics t = Done [(te tok, te tok, EParse (MissingClosing 93))].
+Proof.
+  intros p t G toks tok Hok Hg Hwt Hlex Hk Htok. pose proof (C03_missing_token_text p t G toks tok Hok Hwt Hlex Hk Htok) as H.
+  rewrite Hg in H. exact H.
+Qed.
+Print Assumptions C03_missing_bracket_text.
 
 (* C: the missing `}` of a procedure body *)
 Theorem C03_missing_brace : forall p toks,
@@ -1205,3 +1227,89 @@ Example C03_ex_missing_token_FType :
 j:=0;while(j#3){x[j]:=-j;j:=j+1;}p(x,j*2);}" = Done [(21, 21, EParse MissingTrailingSemic)].
 Proof. sfx_instance sfx9 8%nat "type v=array[3]of int proc p(ref a:v,n:int){var i:int;i:=a[n]+1;if(i<2)p(a,i);}proc main(){var x:v;var j:int;// note
 j:=0;while(j#3){x[j]:=-j;j:=j+1;}p(x,j*2);}"%string. Qed.
+
+(* ... inside expressions: the `)` of a parenthesis, the `]` of an index (leaves FaParC / VIdxC of Proofs/SynFaultsE.v), in the
+   left- or right-hand side of an assignment or in the condition of an if / while.  The program:
+     type v = array [3] of int;
+     proc q(a: int, b: int, c: int) { }
+     proc main() { var x: v; var j: int; j := 2 * (j + 1); x[j] := 0; q(x[j], (j), 0); while (x[(j)] < 3) j := j + 1; } *)
+Definition sfq_j1 := CAdd (ABin (AMul (MFac (FVar (nm s_j)))) c0 APlus (MFac (lit 1))).
+Definition sfq_s1 := SAsg (nm s_j) c0 (CAdd (AMul (MBin (MFac (lit 2)) c0 MTimes (FPar c0 sfq_j1 c0)))) c0.
+Definition sfq_s2 := SAsg (AIndex (nm s_x) c0 (e_f (FVar (nm s_j))) c0) c0 (e_f (lit 0)) c0.
+Definition sfq_s3 :=
+  SWhl c0 c0 (CBin (AMul (MFac (FVar (AIndex (nm s_x) c0 (e_f (FPar c0 (e_f (FVar (nm s_j))) c0)) c0)))) c0 CLt (AMul (MFac (lit 3)))) c0
+       (SAsg (nm s_j) c0 sfq_j1 c0).
+Definition s_q := [113]. Definition s_b := [98]. Definition s_c := [99].
+Definition sfq_xj := FVar (AIndex (nm s_x) c0 (e_f (FVar (nm s_j))) c0).
+Definition sfq_s4 := SCal c0 s_q c0 (Some (e_f sfq_xj, [(c0, e_f (FPar c0 (e_f (FVar (nm s_j))) c0)); (c0, e_f (lit 0))])) c0 c0.
+Definition sfq_q : adecl :=
+  DProc c0 c0 s_q c0 (Some (PVal c0 s_a c0 (TName c0 s_int), [(c0, PVal c0 s_b c0 (TName c0 s_int)); (c0, PVal c0 s_c c0 (TName c0 s_int))]))
+        c0 c0 [] SNil c0.
+Definition ex_q : aprog :=
+  {| a_decls := [sfx_type; sfq_q;
+                 DProc c0 c0 s_main c0 None c0 c0 [sfx_vx; sfx_vj] (SCons sfq_s1 (SCons sfq_s2 (SCons sfq_s4 (SCons sfq_s3 SNil)))) c0];
+     a_ceof := c0 |}.
+Definition ex_q_tree : program := Eval vm_compute in expected ex_q.
+Definition ex_q_table : gtable := Eval vm_compute in built_table ex_q_tree.
+Example C03_ex_q_well_typed : well_typed (expected ex_q) ex_q_table.
+Proof.
+  change (expected ex_q) with ex_q_tree. split.
+  - unfold wf_program. eexists. split; [unfold ex_q_tree; cbn [pg_decls]; decls|].
+    split; [vm_compute; reflexivity|]. eexists. split; vm_compute; reflexivity.
+  - unfold ex_q_tree. dfx_bodies.
+Qed.
+Definition sfq_in (b : fstmts) : fprog :=
+  {| fp_pre := [sfx_type; sfq_q]; fp_decl := FProc c0 c0 s_main c0 None c0 c0 [sfx_vx; sfx_vj] b c0; fp_post := []; fp_ceof := c0 |}.
+(* `j := 2 * (j + 1;`, `x[j := 0;`, `while (x[(j] < 3) ...`, `q(x[j, (j), 0);`, `q(x[j], (j, 0);` *)
+Definition sfq1 : fprog := sfq_in (FHere (FAsgR (nm s_j) c0 (CmAdd (AdMul (MuR (MFac (lit 2)) c0 MTimes (FaParC c0 sfq_j1)))) c0) (SCons sfq_s2 (SCons sfq_s4 (SCons sfq_s3 SNil)))).
+Definition sfq2 : fprog := sfq_in (FLater sfq_s1 (FHere (FAsgL (VIdxC (nm s_x) c0 (e_f (FVar (nm s_j)))) c0 (e_f (lit 0)) c0) (SCons sfq_s4 (SCons sfq_s3 SNil)))).
+Definition sfq3 : fprog :=
+  sfq_in (FLater sfq_s1 (FLater sfq_s2 (FLater sfq_s4 (FHere
+    (FWhlC c0 c0 (CmL (AdMul (MuFac (FaVar (VIdx (nm s_x) c0 (CmAdd (AdMul (MuFac (FaParC c0 (e_f (FVar (nm s_j))))))) c0)))) c0 CLt (AMul (MFac (lit 3)))) c0
+           (SAsg (nm s_j) c0 sfq_j1 c0)) SNil)))).
+(* not a single-fault variant: behind the gap of `x[j + 1 := 0` (from `x[j] + 1`) stands `+`, which continues the index *)
+Definition sfq4 : fprog :=
+  sfq_in (FLater sfq_s1 (FLater sfq_s2 (FHere
+    (FCalA c0 s_q c0 (FArgH (CmAdd (AdMul (MuFac (FaVar (VIdxC (nm s_x) c0 (e_f (FVar (nm s_j))))))))
+                            [(c0, e_f (FPar c0 (e_f (FVar (nm s_j))) c0)); (c0, e_f (lit 0))]) c0 c0) (SCons sfq_s3 SNil)))).
+Definition sfq5 : fprog :=
+  sfq_in (FLater sfq_s1 (FLater sfq_s2 (FHere
+    (FCalA c0 s_q c0 (FArgT (e_f sfq_xj) [] c0 (CmAdd (AdMul (MuFac (FaParC c0 (e_f (FVar (nm s_j))))))) [(c0, e_f (lit 0))]) c0 c0)
+    (SCons sfq_s3 SNil)))).
+Definition sfq_all := [sfq1; sfq2; sfq3; sfq4; sfq5].
+Example C03_ex_missing_token_expr_hyps :
+  Forall (fun p => orig_prog p = ex_q /\ fprog_ok p = true) sfq_all /\
+  map gk_prog sfq_all = [RParen; RBracket; RParen; RBracket; RParen] /\ map gap_prog sfq_all = [49; 54; 78; 63; 67]%nat.
+Proof. vm_compute. repeat constructor. Qed.
+Lemma C03_ex_missing_token_expr_wt : forall p, In p sfq_all -> well_typed (expected (orig_prog p)) ex_q_table.
+Proof.
+  intros p Hin. replace (orig_prog p) with ex_q; [exact C03_ex_q_well_typed|].
+  cbn [sfq_all In] in Hin. repeat (destruct Hin as [<-|Hin]; [vm_compute; reflexivity|]). destruct Hin.
+Qed.
+Ltac sfq_instance p n txt :=
+  let toks := fresh "toks" in let tok := fresh "tok" in
+  pose (toks := match lex (str txt) with Some l => l | None => [] end);
+  pose (tok := match nth_error toks n with Some x => x | None => {| tk := Eof; ts := 0; te := 0; terr := [] |} end);
+  match goal with |- _ = Done [(?a, _, ?m)] => change a with (te tok); change m with (EParse (msg_of_kind (gk_prog p))) end;
+  apply (C03_missing_token_text p _ ex_q_table toks tok);
+  [vm_compute; reflexivity | apply C03_ex_missing_token_expr_wt; cbn [sfq_all In]; tauto | vm_compute; reflexivity ..].
+Example C03_ex_missing_token_paren_rhs :
+  diag_of "type v=array[3]of int;proc q(a:int,b:int,c:int){}proc main(){var x:v;var j:int;j:=2*(j+1;x[j]:=0;q(x[j],(j),0);while(x[(j)]<3)j:=j+1;}" = Done [(88, 88, EParse (MissingClosing 41))].
+Proof. sfq_instance sfq1 49%nat "type v=array[3]of int;proc q(a:int,b:int,c:int){}proc main(){var x:v;var j:int;j:=2*(j+1;x[j]:=0;q(x[j],(j),0);while(x[(j)]<3)j:=j+1;}"%string. Qed.
+Example C03_ex_missing_token_index_lhs :
+  diag_of "type v=array[3]of int;proc q(a:int,b:int,c:int){}proc main(){var x:v;var j:int;j:=2*(j+1);x[j:=0;q(x[j],(j),0);while(x[(j)]<3)j:=j+1;}" = Done [(93, 93, EParse (MissingClosing 93))].
+Proof. sfq_instance sfq2 54%nat "type v=array[3]of int;proc q(a:int,b:int,c:int){}proc main(){var x:v;var j:int;j:=2*(j+1);x[j:=0;q(x[j],(j),0);while(x[(j)]<3)j:=j+1;}"%string. Qed.
+Example C03_ex_missing_token_paren_in_index_in_condition :
+  diag_of "type v=array[3]of int;proc q(a:int,b:int,c:int){}proc main(){var x:v;var j:int;j:=2*(j+1);x[j]:=0;q(x[j],(j),0);while(x[(j]<3)j:=j+1;}" = Done [(122, 122, EParse (MissingClosing 41))].
+Proof. sfq_instance sfq3 78%nat "type v=array[3]of int;proc q(a:int,b:int,c:int){}proc main(){var x:v;var j:int;j:=2*(j+1);x[j]:=0;q(x[j],(j),0);while(x[(j]<3)j:=j+1;}"%string. Qed.
+Example C03_ex_missing_token_index_in_first_argument :
+  diag_of "type v=array[3]of int;proc q(a:int,b:int,c:int){}proc main(){var x:v;var j:int;j:=2*(j+1);x[j]:=0;q(x[j,(j),0);while(x[(j)]<3)j:=j+1;}" = Done [(103, 103, EParse (MissingClosing 93))].
+Proof. sfq_instance sfq4 63%nat "type v=array[3]of int;proc q(a:int,b:int,c:int){}proc main(){var x:v;var j:int;j:=2*(j+1);x[j]:=0;q(x[j,(j),0);while(x[(j)]<3)j:=j+1;}"%string. Qed.
+Example C03_ex_missing_token_paren_in_second_argument :
+  diag_of "type v=array[3]of int;proc q(a:int,b:int,c:int){}proc main(){var x:v;var j:int;j:=2*(j+1);x[j]:=0;q(x[j],(j,0);while(x[(j)]<3)j:=j+1;}" = Done [(107, 107, EParse (MissingClosing 41))].
+Proof. sfq_instance sfq5 67%nat "type v=array[3]of int;proc q(a:int,b:int,c:int){}proc main(){var x:v;var j:int;j:=2*(j+1);x[j]:=0;q(x[j],(j,0);while(x[(j)]<3)j:=j+1;}"%string. Qed.
+(* what the model answers where the token behind the gap continues the expression (`x[j] + 1 := 0` is no program, but
+   `x[j + 1] := 0` is one, and its damaged form is this text as well): still one diagnostic, behind the longer expression *)
+Example C03_ex_missing_token_ambiguous :
+  diag_of "type v=array[3]of int;proc q(a:int,b:int,c:int){}proc main(){var x:v;var j:int;j:=2*(j+1);x[j+1:=0;q(x[j],(j),0);while(x[(j)]<3)j:=j+1;}" = Done [(95, 95, EParse (MissingClosing 93))].
+Proof. vm_compute. reflexivity. Qed.
